@@ -21,7 +21,7 @@ KILLISH = {"KILLED", "PENDING_RECOVERY", "RUNNING_RECOVERY"}
 def descs(ctx: Ctx) -> list[dict]:
     out = []
     for backend in env.BACKENDS:
-        for queue in ("single", "dup", "two", "blocking", "recovery", "recovery-reclaim", "kill", "foreign-kill", "late-finish"):
+        for queue in ("single", "dup", "dup-retry", "two", "blocking", "recovery", "recovery-reclaim", "kill", "foreign-kill", "late-finish"):
             out.append(dict(backend=backend, queue=queue, n=2, k=2 if queue == "two" else 1,
                             bound=1 if queue == "two" else 2))
         out.append(dict(backend=backend, queue="dup", n=3, k=1, bound=1))
@@ -54,7 +54,21 @@ class Scn:
         extra = 1 if queue in ("recovery", "recovery-reclaim", "kill", "foreign-kill", "late-finish") else 0
         w = World(d["backend"], n + extra + 1, app_id="c02", max_pending_seconds=5.0)
         self.w = w
-        w.bind(tasks.keyed)
+        w.bind(tasks.keyed, **({"max_retries": 2} if queue == "dup-retry" else {}))
+        if queue == "dup-retry":
+            # the first execution of the body asks for a retry: the invocation is released (RETRY) and queued again
+            # while a duplicate message for it is still in the queue
+            runs = [0]
+            leave = tasks.HOOKS["exit"]
+
+            def body_exit(name: str, args: Any) -> None:
+                from pynenc.exceptions import RetryError
+
+                leave(name, args)  # the execution is over (the monitor's overlap rule sees the body left)
+                runs[0] += 1
+                if runs[0] == 1:
+                    raise RetryError("once more")
+            tasks.HOOKS["exit"] = body_exit
         client = n + extra  # the last app object is the client / set-up process
         t = w.task("keyed", client)
         ids = []
@@ -62,7 +76,7 @@ class Scn:
         ids.append(i1)
         b = w.apps[client].broker
         actors: list[tuple[str, Any]] = []
-        if queue == "dup":
+        if queue in ("dup", "dup-retry"):
             b.route_invocation(i1)
         elif queue == "dup3":
             b.route_invocation(i1)
@@ -115,9 +129,19 @@ class Scn:
                     except Exception as e:  # noqa: BLE001 - the late finisher is expected to be refused
                         w.log.append(("late-finish-refused", worlds._tid(), type(e).__name__, "r0"))
                     return
+                rounds = 3 if queue == "dup-retry" else 1
                 if held_first:
                     got.append(app.state_backend.get_invocation(i1))
-                else:
+                for _round in range(0 if held_first else rounds):
+                    if _round:
+                        for inv in got:
+                            try:
+                                inv.run(ctx)
+                            except sched.Abort:
+                                raise
+                            except Exception as e:  # noqa: BLE001
+                                w.log.append(("run-error", worlds._tid(), type(e).__name__, f"r{j}"))
+                        got = []
                     try:
                         for inv in app.orchestrator.get_invocations_to_run(k, ctx):
                             w.log.append(("got", worlds._tid(), str(inv.invocation_id), f"r{j}"))
